@@ -10,6 +10,8 @@ BASES = ("int", "float", "str", "bool")
 PYBASE = {"int": int, "float": float, "str": str, "bool": bool}
 
 
+_MISSING = object()
+
 class Ref:
     def __init__(self, spec, built=None):
         self.spec = spec
@@ -277,9 +279,9 @@ class Ref:
             if not self.is_below(n, t[1]):
                 return ("production-not-below-declared-type", path)
             for fn, ft in self.cls[n]["fields"]:
-                if not hasattr(v, fn):
+                if not self.has_field(v, n, fn):
                     return ("field-missing", f"{path}.{fn}")
-                r = self.conforms(getattr(v, fn), ft, reg, f"{path}.{fn}")
+                r = self.conforms(self.field(v, n, fn), ft, reg, f"{path}.{fn}")
                 if r:
                     return r
             return None
@@ -320,6 +322,23 @@ class Ref:
             return r
         raise ValueError(k)
 
+    # ------------------------------------------------------------ field access
+    def has_field(self, v, n, fn):
+        return self.field(v, n, fn, _MISSING) is not _MISSING
+
+    def field(self, v, n, fn, default=None):
+        """value of constructor parameter fn of node v (class name n): the attribute of that name, or -- for hand-written
+        (non-dataclass) classes of the shipped corpus that store a parameter under another name -- the constructor argument the
+        library recorded for it"""
+        if hasattr(v, fn):
+            return getattr(v, fn)
+        if self.cls[n].get("kind") == "plain":
+            init = getattr(v, "gengy_init_values", None)
+            names = [f for f, _ in self.cls[n]["fields"]]
+            if isinstance(init, (list, tuple)) and len(init) == len(names):
+                return init[names.index(fn)]
+        return default
+
     # ------------------------------------------------------------ refinements
     def refinement_holds(self, v, r, siblings=None):
         """None if predicate holds, else cause token"""
@@ -327,6 +346,8 @@ class Ref:
         try:
             if k == "Flaky":
                 return self.refinement_holds(v, r[1], siblings)
+            if k == "Opaque":
+                return None  # a refinement of the shipped corpus that the reference does not model: not judged
             if k == "IntRange":
                 return None if (type(v) is int and r[1] <= v <= r[2]) else "IntRange"
             if k == "IntList":
@@ -376,9 +397,9 @@ class Ref:
                 return out
             sib = {}
             for fn, ft in self.cls[n]["fields"]:
-                if not hasattr(v, fn):
+                if not self.has_field(v, n, fn):
                     continue
-                fv = getattr(v, fn)
+                fv = self.field(v, n, fn)
                 self.check_refinements(fv, ft, f"{path}.{fn}", sib, out)
                 sib[fn] = fv
         elif k == "list":
@@ -415,7 +436,7 @@ class Ref:
         n = self.cls_of(v)
         if n is None:
             return 0
-        return 1 + max([self.depth(getattr(v, fn)) for fn, _ in self.cls[n]["fields"] if hasattr(v, fn)] or [0])
+        return 1 + max([self.depth(self.field(v, n, fn)) for fn, _ in self.cls[n]["fields"] if self.has_field(v, n, fn)] or [0])
 
     def nodes(self, v):
         """all grammar-class instances in v, pre-order"""
@@ -431,8 +452,8 @@ class Ref:
                 return
             out.append(x)
             for fn, _ in self.cls[n]["fields"]:
-                if hasattr(x, fn):
-                    walk(getattr(x, fn))
+                if self.has_field(x, n, fn):
+                    walk(self.field(x, n, fn))
 
         walk(v)
         return out
@@ -475,7 +496,7 @@ def canon(v, ref: Ref):
         return ("tuple", tuple(canon(e, ref) for e in v))
     n = ref.cls_of(v)
     if n is not None:
-        return (n, tuple((fn, canon(getattr(v, fn, None), ref)) for fn, _ in ref.cls[n]["fields"]))
+        return (n, tuple((fn, canon(ref.field(v, n, fn), ref)) for fn, _ in ref.cls[n]["fields"]))
     return ("foreign", t.__qualname__)
 
 
